@@ -10,7 +10,10 @@ CHECKS = {
         "Metropolis leaves pi invariant; a fresh momentum leaves the joint target invariant; invariance is closed under composition, hence any number of HMC "
         "transitions (refresh ; involution + Metropolis) started on the target stays on it. C01 (involution, unit Jacobian), C02 (Metropolis on misfit+kinetic "
         "energy) and C03 (Gibbs momenta) supply the hypotheses for the code. Tie: the real transition with real Unit/Diagonal/Full masses and real targets is "
-        "co-executed bit for bit with that composition; moment tests over thousands of exact starting draws search for failing configurations.",
+        "co-executed bit for bit with that composition; moment tests over thousands of exact starting draws search for failing configurations. Over the reals "
+        "(Props/C04_continuum.v, names ..._partial): the Metropolis kernel of a symmetric proposal and of a volume-preserving involution satisfies detailed balance "
+        "POINTWISE for any positive density; the density of the momenta actually drawn is compared with exp(-K) of the mass matrix in use (momentum-law check), and "
+        "eight forced configurations (truncated targets under RWMH and HMC, mixtures, integer-typed Full mass) are always part of the search.",
    note="Not mechanised: the passage from counting measure to Lebesgue measure (change of variables, |det J| = 1). Trusted: Coq kernel, mathcomp; harness; scipy "
         "truncnorm for the truncated target's closed-form moments. Moment tests are statistical (7 standard errors) and never the sole ground for a verdict.",
    technique="Coq proof (finite-state kernel invariance, mathcomp) + bit-exact composition tie + moment tests as search", ref="5/C04"),
@@ -127,7 +130,9 @@ CHECKS = {
         "fault-free run and contain everything stored during the proposals completed before the stop (induction over the event stream); outcome "
         "(return vs re-raise of the same exception) and totality of the close arithmetic. Tie: exhaustive fault injection per short run on the real "
         "samplers (both back ends), compared with the model (columns, outcome, final proposal index) and with the fault-free reference run, "
-        "print_details(), handle state and a second run on the same object.",
+        "print_details(), handle state and a second run on the same object. The evaluation limiter (Distributions.EvaluationLimiter) has its own model "
+        "(Model/Limiter.v: counter, budget, reset on raise) with theorems that the interrupt is raised at exactly the budgeted call, for misfit and gradient alike, "
+        "and that the counter is zero afterwards; co-executed with the real wrapper over random call sequences and followed by real interrupted runs.",
    note="Trusted: Coq kernel; harness; Python's try/except/finally semantics are transcribed by hand into Model/Faults.v (handler) and checked only by "
         "co-execution. Faults inside h5py/numpy I/O and inside _close_sampler are outside the modelled boundaries. One known finding (NPY, zero columns).",
    technique="Coq proof (prefix theorem over fault model) + exhaustive fault injection co-execution", ref="5/C08"),
